@@ -166,7 +166,42 @@ func OsMkdirAll(name string, perm os.FileMode) error {
 	return err
 }
 
+// httpInstalled: InstallHTTP replaced http.DefaultTransport; the yield / fault
+// hook / call log of a request then happen in the transport, whatever client
+// API the instrumented code uses (http.Post, http.DefaultClient.Do, a
+// http.Client with the default transport ...), and HttpPost only delegates.
+var httpInstalled bool
+
+// Transport yields to the scheduler and consults the fault hook before every
+// request (kind "http.Post", path = URL), like the other shims.
+type Transport struct{ Base http.RoundTripper }
+
+func (t Transport) RoundTrip(req *http.Request) (*http.Response, error) {
+	url := req.URL.String()
+	if err := pre("http.Post", url); err != nil {
+		if req.Body != nil {
+			req.Body.Close()
+		}
+		return nil, err
+	}
+	r, err := t.Base.RoundTrip(req)
+	post("http.Post", url, err)
+	return r, err
+}
+
+// InstallHTTP routes every request of the process that uses
+// http.DefaultTransport through Transport; the returned function undoes it.
+func InstallHTTP() (restore func()) {
+	old := http.DefaultTransport
+	http.DefaultTransport = Transport{Base: old}
+	httpInstalled = true
+	return func() { http.DefaultTransport = old; httpInstalled = false }
+}
+
 func HttpPost(url, contentType string, body io.Reader) (*http.Response, error) {
+	if httpInstalled {
+		return http.Post(url, contentType, body)
+	}
 	if err := pre("http.Post", url); err != nil {
 		return nil, err
 	}
